@@ -258,6 +258,9 @@ def standin_dofs(ctx):
     ctx.standin("DOFS clauses (gap-free, sharing, tables vs cell list, doflocs, matrix shape/locality) on the real Dofs/Basis over the mesh zoo x element list",
                 r["bound"] + "; elements: 1-12 per cell type incl. vector, composite, DG, H(div), H(curl), global", r["cases"], r["failures"],
                 samples=r["samples"], time_s=time.time() - t0)
+    r = core.run_native("standin_mesh.py", dict(seed=ctx.seed, tier=ctx.tier, what="dofs-derived"), timeout=3000)
+    ctx.standin("DOFS clauses on meshes derived by library operations from meshes with warm connectivity caches", r["bound"], r["cases"], r["failures"],
+                samples=r["samples"], time_s=time.time() - t0)
     r = core.run_native("standin_mesh.py", dict(seed=ctx.seed, tier=ctx.tier, what="large"))
     ctx.standin("machine-integer probe (outside assumption A2): entity tables of meshes with more than 2**16 randomly numbered vertices",
                 r["bound"], r["cases"], r["failures"], samples=r["samples"], time_s=time.time() - t0)
